@@ -395,6 +395,20 @@ pub fn act_oracle_publish(sim: &Sim, ctx: &mut Ctx, stats_faults: &mut Vec<&'sta
                 account: Some(acc),
                 why: "oracle_publish",
             });
+            if let Some((_, sol_pool)) = b.staked {
+                // epoch rewards (or a rare slash) move the pool's exchange rate
+                if ctx.rng.chance(1, 4) {
+                    if let Some(st) = sim.store.get(&sol_pool).and_then(|a| fixtures::parse_stake(&a.data)) {
+                        let bps = if ctx.rng.chance(1, 10) { ctx.rng.irange(-500, 0) } else { ctx.rng.irange(0, 50) };
+                        let ns = (st as i128 * (10_000 + bps as i128) / 10_000).clamp(1_000_000_001, u64::MAX as i128 / 2) as u64;
+                        evs.push(Event::SetAccount {
+                            key: sol_pool,
+                            account: Some(fixtures::stake_account(ns, 2)),
+                            why: "oracle_stake_reward",
+                        });
+                    }
+                }
+            }
         }
     }
     evs
